@@ -101,6 +101,12 @@ func decodeDataURI(u []byte) (d decoded, wellFormed bool, ok bool) {
 	if d.typ == "" {
 		d.typ = "text/plain"
 	}
+	if !strings.Contains(d.typ, "/") {
+		// not a media type at all (data:base64,): a consumer falls back to text/plain;charset=US-ASCII and ignores the
+		// parameters (Fetch standard, data: URL processor), so that is what such a header denotes
+		d.typ = "text/plain"
+		parts = parts[:1]
+	}
 	for _, p := range parts[1:] {
 		kv := strings.SplitN(p, "=", 2)
 		k := strings.ToLower(stripWS(kv[0]))
